@@ -149,10 +149,10 @@ def run(ctx, replay):
     os.makedirs(scr, exist_ok=True)
     if thorough:
         args = ["--small-len", 3, "--small-keys", 3, "--small-triples", 3, "--rand", 800, "--rand-n", 80,
-                "--big", 4, "--big-n", 4000, "--kv", 60, "--seek", 10, "--findings", 4]
+                "--big", 4, "--big-n", 4000, "--wide", 6, "--kv", 60, "--seek", 10, "--findings", 4]
     else:
         args = ["--small-len", 3, "--small-keys", 2, "--small-triples", 2, "--rand", 120, "--rand-n", 60,
-                "--big", 1, "--big-n", 1500, "--kv", 10, "--seek", 3, "--findings", 1]
+                "--big", 1, "--big-n", 1500, "--wide", 1, "--kv", 10, "--seek", 3, "--findings", 1]
     summ, rc, _ = ctx.run_vdrive(["dict", "--seed", ctx.seed, "--out", tr, "--out-seek", trs, "--out-findings", trf,
                                   "--scratch", scr] + args, timeout=1200)
     for u in summ["unresolved"]:
